@@ -66,7 +66,7 @@ func init() {
 	register("C13",
 		Stream{"origin.labels", func(c *Ctx) {
 			// exhaustive label sequences up to depth 4 over a small alphabet around every RP host
-			alphabet := []string{"a", "b", "example", "com", ""}
+			alphabet := []string{"a", "b", "example", "com", "", "xexample", "xa"}
 			depth := c.N(3, 4)
 			var seqs []string
 			var rec func(prefix []string, d int)
@@ -89,7 +89,7 @@ func init() {
 				}
 			}
 			c.Res.mu.Lock()
-			c.Res.Exhaustive = append(c.Res.Exhaustive, fmt.Sprintf("all %d label sequences of depth <= %d over {a,b,example,com,\"\"} x 4 RP hosts", len(seqs), depth))
+			c.Res.Exhaustive = append(c.Res.Exhaustive, fmt.Sprintf("all %d label sequences of depth <= %d over {a,b,example,com,\"\",xexample,xa} x 4 RP hosts", len(seqs), depth))
 			c.Res.mu.Unlock()
 		}},
 		Stream{"origin.placements", func(c *Ctx) {
@@ -114,7 +114,8 @@ func init() {
 				}
 				// the RP host inside an otherwise foreign URL: never acceptable
 				for _, cl := range []string{"https://evil.com/" + hh, "https://evil.com?" + hh, "https://evil.com#" + hh, "https://" + hh + "@evil.com", "https://" + hh + ":x@evil.com",
-					"https://evil" + hh, "https://" + hh + ".evil.com", "https://" + hh + "evil.com", "https://evil.com/https://" + hh, "https://evil.com/." + hh, "https://evil.com#." + hh} {
+					"https://evil" + hh, "https://" + hh + ".evil.com", "https://" + hh + "evil.com", "https://evil.com/https://" + hh, "https://evil.com/." + hh, "https://evil.com#." + hh,
+					"https://x.evil" + hh, "https://a.b.not" + hh, "https://login.evil" + hh + ":8443", "https://x.y.z" + hh, "https://." + "evil" + hh, "https://x.evil" + hh + "/" + hh} {
 					if strings.ContainsAny(h, " :") || h == "com" {
 						continue
 					}
